@@ -20,7 +20,9 @@ RULE = ('Edit sequences as in C01 in which ~45 % of the steps carry a deliberate
         'ordering rules, norm refusals, out-of-range) is a test event: (src, ast.dump with positions) of the target root must '
         'equal the snapshot taken before the call, parent/field/root links of all nodes must be intact, the modification '
         'registry must hold no entry, and a following known-good edit (append `pass`, then delete it) must succeed with '
-        'the C01 invariant. Non-trivial = the exception was raised below the argument-validation layer (innermost fst frame is '
+        'the C01 invariant. Enumerated next to the drawn sequences: every node x {remove, delattr, cut, put(None), wrong-category '
+        'replace}, every container x every position x all donors, and raw mode: every node x every unparsable text x '
+        '{replace(raw=True), replace(raw="auto"), put_src(action="reparse") over the node location}. Non-trivial = the exception was raised below the argument-validation layer (innermost fst frame is '
         'not a validation/parse function), i.e. on a path that could have half-applied; distinct by (case, step index).')
 ASSUMPTIONS = [
     'only naturally reachable raise sites are exercised (no exception injection into pfst internals)',
@@ -34,7 +36,7 @@ VALIDATION_SITES = ('_validate_put', 'fixup_slice_indices', 'fixup_one_index', '
 
 def params(tier):
     if tier == 'quick':
-        return {'examples': 1500, 'wall': 75, 'case_timeout': 20, 'max_steps': 8}
+        return {'examples': 1500, 'wall': 170, 'case_timeout': 20, 'max_steps': 8}
 
     return {'examples': 30000, 'wall': 1500, 'case_timeout': 30, 'max_steps': 20}
 
@@ -84,6 +86,31 @@ def enumerate_cases(tier, shard, nshards, seed):
 
                 yield {'src': src, 'steps': [step], 'enumerated': True}
 
+    # raw mode: every node of the template / trivia programs x every unparsable source x raw in (True, 'auto'), and the same text put by location
+    # with put_src(action='reparse') - the put is spliced into the source before the reparse decides
+    for pi, src in enumerate(gen.SYN_PROGRAMS + gen.TRIVIA_PROGRAMS):
+        try:
+            n = len(em.node_targets(ast.parse(src)))
+        except SyntaxError:
+            continue
+
+        for ti in range(n):
+            for bi in range(len(em.BAD_SRCS)):
+                for how in ('raw', 'auto', 'put_src'):
+                    k += 1
+
+                    if k % nshards != shard or (tier == 'quick' and (k * 2654435761 + seed * 40503) % 3):
+                        continue
+
+                    step = {'tsel': ti, 'form': 'src', 'dsel': 0, 'opts': {}, 'anycat': False, 'layout': [], 'fault': 'bad_src', 'fsel': bi}
+
+                    if how == 'put_src':
+                        step['op'] = 'put_src'
+                    else:
+                        step.update(op='replace', opts={'raw': True if how == 'raw' else 'auto'})
+
+                    yield {'src': src, 'steps': [step], 'enumerated': True}
+
     # slice level: every container of the container templates and of the def / class saturated programs x insertion / replacement at every position x
     # ALL donors of the container kind (many violate ordering rules: '**kw' before arguments, positional after keyword, ...), default options
     from . import c03
@@ -123,6 +150,36 @@ def modifying_clear(root):
     return not reg  # single-threaded check process: must be empty when no edit is in flight
 
 
+def apply_put_src(root, step):
+    """`put_src(text, *location of a node, action='reparse')` with an unparsable text."""
+
+    targets = em.node_targets(root.a)
+
+    if not targets:
+        raise em.StepSkipped('no_targets')
+
+    node, parent, field, idx = em.pick(targets, step['tsel'])
+    loc = node.f.loc
+
+    if loc is None:
+        raise em.StepSkipped('no_location')
+
+    ap = em.Applied()
+    ap.op = 'put_src'
+    ap.fault = step.get('fault')
+    ap.parent_cls, ap.field, ap.idx, ap.target_cls, ap.kind, ap.form, ap.opts = parent.__class__.__name__, field, idx, node.__class__.__name__, 'node', 'src', {}
+    ap.code_src = em.pick(em.BAD_SRCS, step['fsel'])
+    ap.desc = f'FAULT:bad_src put_src({ap.code_src!r}, {tuple(loc)}, action="reparse") over {ap.parent_cls}.{field}[{idx}] {ap.target_cls}'
+
+    try:
+        root.put_src(ap.code_src, *loc, 'reparse')
+    except Exception as exc:
+        ap.raised = True
+        ap.exc = exc
+
+    return ap
+
+
 def execute(case, ctx):
     if (why := c01.excluded(case['src'])) and not case.get('no_exclude'):
         raise Skip(f'excluded_known_finding:{why}')
@@ -137,7 +194,7 @@ def execute(case, ctx):
         t0 = T(root.a)
 
         try:
-            ap = em.apply_step(root, step, c01.BASE_OPTS)
+            ap = apply_put_src(root, step) if step['op'] == 'put_src' else em.apply_step(root, step, c01.BASE_OPTS)
         except em.StepSkipped as s:
             ctx.count(f'step_skipped:{s.reason}')
 
@@ -207,6 +264,6 @@ def execute(case, ctx):
 
         fn = site.split(':')[-1]
 
-        if not any(v in fn for v in VALIDATION_SITES) and not isinstance(exc, SyntaxError):
+        if (not any(v in fn for v in VALIDATION_SITES) and not isinstance(exc, SyntaxError)) or ap.op == 'put_src' or ap.opts.get('raw'):
             ctx.mark_nontrivial([case['src'], case['steps'][:i + 1]],
                                 {'src': case['src'][:300], 'failing_step': ap.desc, 'exception': repr(exc)[:200], 'site': site})
